@@ -13,7 +13,7 @@ Proof. intros o slot props s Hq Hc Hp Hs. exact (lexical_class_strings o Hq slot
 
 Lemma c03_slots_consistent_lemma :
   length all_slots = 349
-  /\ map slot_name (filter (fun s => negb (consistent s)) all_slots) = allof_defect_slots
+  /\ inconsistent_slots = allof_defect_slots
   /\ forall slot, In slot all_slots -> consistent slot = true \/ In (slot_name slot) allof_defect_slots.
 Proof. split; [exact slot_count|]. split; [exact inconsistent_slots_are_allof|exact consistent_or_listed]. Qed.
 
